@@ -359,6 +359,30 @@ theorem bin_length_trapz (s : Spectrum) (sym : Bool) (fl fr : ℚ) (pp : Option 
     have := binRaw_length_trapz s sym fl fr c raw hraw
     split at h <;> cases h <;> simp [this]
 
+/-- Simpson binning (symmetric ends, float centres, no power preservation) of a non-negative spectrum is non-negative: the
+weights (x₂−x₀)/6·(1, 4, 1) of the chained rule are positive on increasing sample points — for any increasing centres, in
+particular the uniform ones of the property's Simpson clause. (`ends='inside'`, integer-dtype centres and the scipy
+normalisation under preserve_power are not covered: oracle only.) -/
+theorem bin_simps_nonneg_symmetric (s : Spectrum) (hwf : WF s) (hv : ∀ v ∈ s.value, 0 ≤ v) (fl fr : ℚ)
+    (hfl : 0 ≤ fl) (hfr : 0 ≤ fr) (c : List ℚ) (hc : StrictInc c) (bins : List ℚ)
+    (h : bin s true true fl fr none c = .ok bins) : ∀ b ∈ bins, 0 ≤ b := by
+  simp only [bin, binRaw, if_true, sample] at h
+  split at h
+  · cases h
+  · rename_i raw hraw
+    split at hraw
+    · cases hraw
+    · split at hraw
+      · cases hraw
+      · rename_i f hf
+        split at hf
+        · cases hf
+        · cases hf; cases hraw; cases h
+          apply simpsBins_nonneg_adj _ _ (adjLe_simpsPoints_symmetric c hc)
+          intro v hv'
+          obtain ⟨x, _, rfl⟩ := List.mem_map.mp hv'
+          exact interpAt_nonneg _ _ _ _ _ hwf.1 hv hfl hfr
+
 /-- Simpson binning also returns one value per requested centre (both end treatments, float or integer-dtype centres) -/
 theorem binRaw_length_simps (s : Spectrum) (sym intC : Bool) (fl fr : ℚ) (c bins : List ℚ)
     (h : binRaw s true sym fl fr c intC = .ok bins) : bins.length = c.length := by
